@@ -1233,3 +1233,264 @@ func (c *Ctx) descKeyByFoldingUncached() (string, int, bool) {
 	}
 	return "", n, true
 }
+
+// builderLaterWinsByFolding folds a dictionary in which an attribute and a chord are defined twice through
+// chord.NewBuilder / Attribute / Chord / Build and asks the map: the later definition is the one in force, for attributes
+// as for chords (a --attr / --chord file is registered after the built-ins and overrides them). ok=false when it does not fold.
+func (c *Ctx) builderLaterWinsByFolding() (string, bool) {
+	nb, addA, addC, build := c.fn("chord", "NewBuilder"), c.fn("chord", "Builder.Attribute"), c.fn("chord", "Builder.Chord"), c.fn("chord", "Builder.Build")
+	getA, getCA := c.fn("chord", "Map.GetAttribute"), c.fn("chord", "Map.GetChordAttributes")
+	if nb == nil || addA == nil || addC == nil || build == nil || getA == nil || getCA == nil || len(getA.Params) != 2 || len(getCA.Params) != 2 {
+		return "", false
+	}
+	debug := os.Getenv("CRDCHECK_DEBUG") != ""
+	fail := func(what string, err error, v fval) (string, bool) {
+		if debug {
+			fmt.Fprintf(os.Stderr, "builderLaterWinsByFolding: %s does not fold: %v %s\n", what, err, v.String())
+		}
+		return "", false
+	}
+	dnames := c.enumConsts("note", "DegreeName")
+	nameOfQuality := map[Quality]string{}
+	for dn, q := range degreeNameQuality {
+		nameOfQuality[q] = dn
+	}
+	degreeV := func(n int, q Quality) fval {
+		return fval{fields: map[string]fval{"Value": {k: constant.MakeInt64(int64(n)), t: types.Typ[types.Uint]}, "Name": {k: constant.MakeInt64(dnames[nameOfQuality[q]])}}}
+	}
+	strV := func(s string) fval { return fval{k: constant.MakeString(s), t: types.Typ[types.String]} }
+	fd := c.newFolder()
+	fd.maxSteps, fd.maxDepth = 400000, 16
+	b, err := fd.foldCall(nb, nil)
+	if err != nil || b.addr == nil {
+		return fail("NewBuilder", err, b)
+	}
+	heap := fd.heap
+	attr := func(name string, n int, q Quality) bool {
+		fd.steps = 0
+		_, err := fd.foldCallEnv(addA, []fval{b, {fields: map[string]fval{"Name": strV(name), "Degree": degreeV(n, q)}}}, nil, heap)
+		return err == nil
+	}
+	chordDef := func(name, display string, attrs ...string) bool {
+		l := &ListV{T: types.NewSlice(types.Typ[types.String])}
+		for _, a := range attrs {
+			l.Elems = append(l.Elems, &CVal{V: constant.MakeString(a), T: types.Typ[types.String]})
+		}
+		fd.steps = 0
+		_, err := fd.foldCallEnv(addC, []fval{b, {fields: map[string]fval{"Name": strV(name), "Meta": {fields: map[string]fval{"Display": strV(display)}}, "Attributes": {cv: l, t: l.T}, "Extends": strV("")}}}, nil, heap)
+		return err == nil
+	}
+	if !attr("Third", 3, QMajor) || !attr("Fifth", 5, QPerfect) || !attr("Seventh", 7, QMinor) || !chordDef("Plain", "pl", "Third", "Fifth") || !chordDef("Other", "ot", "Fifth") ||
+		// the redefinitions (what a user's file does to built-ins)
+		!attr("Third", 3, QMinor) || !chordDef("Plain", "pl", "Third", "Fifth", "Seventh") {
+		return fail("registering", nil, top)
+	}
+	recvB := b
+	if _, isPtr := build.Params[0].Type().Underlying().(*types.Pointer); !isPtr {
+		recvB = fd.deref(b)
+	}
+	fd.steps = 0
+	fd.incomplete = nil
+	mr, err := fd.foldCallEnv(build, []fval{recvB}, nil, heap)
+	if err != nil || len(mr.tuple) != 2 || !(mr.tuple[1].isNil || mr.tuple[1].nonNil) || len(fd.incomplete) > 0 {
+		return fail("Builder.Build", err, mr)
+	}
+	if mr.tuple[1].nonNil {
+		return "a dictionary that defines an attribute and a chord twice is refused: a user's file cannot override a built-in", true
+	}
+	recvOf := func(fn *ssa.Function) fval {
+		if _, isPtr := fn.Params[0].Type().Underlying().(*types.Pointer); !isPtr {
+			return fd.deref(mr.tuple[0])
+		}
+		return mr.tuple[0]
+	}
+	fd.steps = 0
+	ar, err := fd.foldCallEnv(getA, []fval{recvOf(getA), strV("Third")}, nil, heap)
+	if err != nil || len(ar.tuple) != 2 || ar.tuple[1].k == nil || ar.tuple[0].fields == nil || ar.tuple[0].fields["Degree"].fields == nil || ar.tuple[0].fields["Degree"].fields["Name"].k == nil {
+		return fail("GetAttribute", err, ar)
+	}
+	if !constant.BoolVal(ar.tuple[1].k) {
+		return "an attribute that was defined twice is not found", true
+	}
+	if gq, _ := constant.Int64Val(ar.tuple[0].fields["Degree"].fields["Name"].k); gq != dnames[nameOfQuality[QMinor]] {
+		return "an attribute defined twice keeps its first definition: an --attr file that redefines a built-in name is silently ignored (chords take the later definition)", true
+	}
+	fd.steps = 0
+	cr, err := fd.foldCallEnv(getCA, []fval{recvOf(getCA), strV("pl")}, nil, heap)
+	if err != nil || len(cr.tuple) != 2 || cr.tuple[1].k == nil {
+		return fail("GetChordAttributes", err, cr)
+	}
+	es, ok := fd.sliceElems(cr.tuple[0], heap)
+	if !ok {
+		return fail("reading the attributes", nil, cr.tuple[0])
+	}
+	if !constant.BoolVal(cr.tuple[1].k) || len(es) != 3 {
+		return fmt.Sprintf("a chord defined twice resolves to %d attributes, the later definition has 3: a --chord file that redefines a built-in is not what is played", len(es)), true
+	}
+	return "", true
+}
+
+// extendsByFolding folds a made-up user dictionary through the builder and chord.Map.GetChordAttributes: a chain of
+// seven chords, each extending the one before (deeper than any built-in), whose own attributes repeat an interval number
+// that is already there (m3 beside M3) and double tones at the octave (P8 over P1, P12 over P5, M10 over M3): every
+// level, asked by name and by display, lists the parent's notes first and then its own, none dropped. ok=false when it
+// does not fold.
+func (c *Ctx) extendsByFolding() (string, int, bool) {
+	nb, addA, addC, build := c.fn("chord", "NewBuilder"), c.fn("chord", "Builder.Attribute"), c.fn("chord", "Builder.Chord"), c.fn("chord", "Builder.Build")
+	getCA := c.fn("chord", "Map.GetChordAttributes")
+	if nb == nil || addA == nil || addC == nil || build == nil || getCA == nil || len(getCA.Params) != 2 {
+		return "", 0, false
+	}
+	debug := os.Getenv("CRDCHECK_DEBUG") != ""
+	fail := func(what string, err error, v fval) (string, int, bool) {
+		if debug {
+			fmt.Fprintf(os.Stderr, "extendsByFolding: %s does not fold: %v %s\n", what, err, v.String())
+		}
+		return "", 0, false
+	}
+	dnames := c.enumConsts("note", "DegreeName")
+	nameOfQuality := map[Quality]string{}
+	for dn, q := range degreeNameQuality {
+		nameOfQuality[q] = dn
+	}
+	degreeV := func(n int, q Quality) fval {
+		return fval{fields: map[string]fval{"Value": {k: constant.MakeInt64(int64(n)), t: types.Typ[types.Uint]}, "Name": {k: constant.MakeInt64(dnames[nameOfQuality[q]])}}}
+	}
+	strV := func(s string) fval { return fval{k: constant.MakeString(s), t: types.Typ[types.String]} }
+	fd := c.newFolder()
+	fd.maxSteps, fd.maxDepth = 400000, 24
+	b, err := fd.foldCall(nb, nil)
+	if err != nil || b.addr == nil {
+		return fail("NewBuilder", err, b)
+	}
+	heap := fd.heap
+	type at struct {
+		name string
+		n    int
+		q    Quality
+	}
+	attrs := []at{{"aP1", 1, QPerfect}, {"aM3", 3, QMajor}, {"am3", 3, QMinor}, {"aP5", 5, QPerfect}, {"am7", 7, QMinor}, {"aM9", 9, QMajor}, {"aP8", 8, QPerfect}, {"aP12", 12, QPerfect}, {"aM10", 10, QMajor}}
+	for _, a := range attrs {
+		fd.steps = 0
+		if _, err := fd.foldCallEnv(addA, []fval{b, {fields: map[string]fval{"Name": strV(a.name), "Degree": degreeV(a.n, a.q)}}}, nil, heap); err != nil {
+			return fail("Builder.Attribute", err, top)
+		}
+	}
+	levels := [][]string{{"aP1", "aM3", "aP5"}, {"am7"}, {"aM9"}, {"am3"}, {"aP8"}, {"aP12"}, {"aM10"}}
+	for i, own := range levels {
+		l := &ListV{T: types.NewSlice(types.Typ[types.String])}
+		for _, a := range own {
+			l.Elems = append(l.Elems, &CVal{V: constant.MakeString(a), T: types.Typ[types.String]})
+		}
+		ext := ""
+		if i > 0 {
+			ext = fmt.Sprintf("Level%d", i-1)
+		}
+		fd.steps = 0
+		if _, err := fd.foldCallEnv(addC, []fval{b, {fields: map[string]fval{"Name": strV(fmt.Sprintf("Level%d", i)), "Meta": {fields: map[string]fval{"Display": strV(fmt.Sprintf("lv%d", i))}}, "Attributes": {cv: l, t: l.T}, "Extends": strV(ext)}}}, nil, heap); err != nil {
+			return fail("Builder.Chord", err, top)
+		}
+	}
+	recvB := b
+	if _, isPtr := build.Params[0].Type().Underlying().(*types.Pointer); !isPtr {
+		recvB = fd.deref(b)
+	}
+	fd.steps = 0
+	fd.incomplete = nil
+	mr, err := fd.foldCallEnv(build, []fval{recvB}, nil, heap)
+	if err != nil || len(mr.tuple) != 2 || !(mr.tuple[1].isNil || mr.tuple[1].nonNil) || len(fd.incomplete) > 0 {
+		return fail("Builder.Build", err, mr)
+	}
+	if mr.tuple[1].nonNil {
+		return "a dictionary of seven chords that extend one another in a chain is refused", 0, true
+	}
+	recv := mr.tuple[0]
+	if _, isPtr := getCA.Params[0].Type().Underlying().(*types.Pointer); !isPtr {
+		recv = fd.deref(recv)
+	}
+	n := 0
+	// twice over: the second round would see what a first round left behind
+	for round := 0; round < 2; round++ {
+		for i := len(levels) - 1; i >= 0; i-- {
+			var want []string
+			for j := 0; j <= i; j++ {
+				want = append(want, levels[j]...)
+			}
+			for _, lookup := range []string{fmt.Sprintf("Level%d", i), fmt.Sprintf("lv%d", i)} {
+				fd.steps = 0
+				fd.incomplete = nil
+				r, err := fd.foldCallEnv(getCA, []fval{recv, strV(lookup)}, nil, heap)
+				if err != nil || len(r.tuple) != 2 || r.tuple[1].k == nil || len(fd.incomplete) > 0 {
+					return fail("GetChordAttributes("+lookup+")", err, r)
+				}
+				es, ok := fd.sliceElems(r.tuple[0], heap)
+				if !ok {
+					return fail("reading the attributes of "+lookup, nil, r.tuple[0])
+				}
+				n++
+				var got []string
+				for _, e := range es {
+					if e.fields == nil || e.fields["Name"].k == nil {
+						return fail("reading an attribute of "+lookup, nil, e)
+					}
+					got = append(got, constant.StringVal(e.fields["Name"].k))
+				}
+				if !constant.BoolVal(r.tuple[1].k) || strings.Join(got, " ") != strings.Join(want, " ") {
+					return fmt.Sprintf("in a user dictionary whose chords extend one another %d deep, %q resolves to [%s], want [%s] (the parent's notes first, then its own; a second third, and tones doubled at the octave, are notes like any other)", i, lookup, strings.Join(got, " "), strings.Join(want, " ")), n, true
+				}
+			}
+		}
+	}
+	return "", n, true
+}
+
+// writesOnlyLocals: the functions of fn's region store into nothing but their own locals (no map of the receiver is
+// updated, no field of it assigned): what one call leaves behind cannot reach the next.
+func (c *Ctx) writesOnlyLocals(fn *ssa.Function) bool {
+	good := true
+	for _, f := range c.regionFuncChainsList(fn) {
+		allInstrs(f, func(in ssa.Instruction) {
+			outside := func(root ssa.Value) bool {
+				// memory that was there before the call: reached through a parameter, a captured variable, a global, or a
+				// pointer loaded from somewhere
+				switch r := root.(type) {
+				case *ssa.FreeVar:
+					// a variable of the enclosing function assigned from a function literal (the body of a range-over-func loop)
+					return f.Parent() == nil
+				case *ssa.Parameter, *ssa.Global, *ssa.Field, *ssa.Lookup, *ssa.Extract:
+					return true
+				case *ssa.UnOp:
+					if a, ok := addrRoot(r.X).(*ssa.Alloc); ok && a.Parent() == f {
+						return false // a local read back
+					}
+					return true
+				}
+				return false
+			}
+			if os.Getenv("CRDCHECK_DEBUG") != "" {
+				switch x := in.(type) {
+				case *ssa.MapUpdate:
+					if _, made := stripThroughLocal(x.Map).(*ssa.MakeMap); !made {
+						fmt.Fprintf(os.Stderr, "writesOnlyLocals(%s): map update %s in %s\n", fname(fn), x.String(), fname(f))
+					}
+				case *ssa.Store:
+					if outside(addrRoot(x.Addr)) {
+						fmt.Fprintf(os.Stderr, "writesOnlyLocals(%s): store %s (root %T %s) in %s\n", fname(fn), x.String(), addrRoot(x.Addr), addrRoot(x.Addr).String(), fname(f))
+					}
+				}
+			}
+			switch x := in.(type) {
+			case *ssa.MapUpdate:
+				// a map is a reference: only one made here is the function's own
+				if _, made := stripThroughLocal(x.Map).(*ssa.MakeMap); !made {
+					good = false
+				}
+			case *ssa.Store:
+				if outside(addrRoot(x.Addr)) {
+					good = false
+				}
+			}
+		})
+	}
+	return good
+}
